@@ -431,7 +431,23 @@ def semantic_mutants(tok, raw, ver):
         out.append(("ch-dup-extension", None))
         out.append(("ch-empty-psk-identity", None))
         out.append(("ch-empty-compress-list", None))
+        out.append(("ch-sni-empty-name", None))
+    if tok in ("CH", "SH", "HRR"):
+        # every extension of the hello, payload replaced: empty / zeros / header kept + zeros / first half / one zero byte
+        for et in hello_ext_types(tok, raw):
+            for how in ("empty", "zeros", "zerotail", "half", "byte0", "ones"):
+                out.append(("ext-%d-%s" % (et, how), None))
     return out
+
+
+def hello_ext_types(tok, raw):
+    from tlslite.messages import ClientHello, ServerHello
+    from tlslite.utils.codec import Parser
+    try:
+        m = (ClientHello() if tok == "CH" else ServerHello()).parse(Parser(bytearray(raw[1:])))
+        return [e.extType for e in (m.extensions or [])]
+    except Exception:
+        return []
 
 
 def object_mutant(name, raw):
@@ -445,8 +461,30 @@ def object_mutant(name, raw):
             sh = ServerHello().parse(Parser(bytearray(raw[1:])))
             sh.extensions = list(sh.extensions or []) + [SrvPreSharedKeyExtension().create(7)]
             return bytes(sh.write())
+        if name.startswith("ext-"):
+            _, et, how = name.split("-")
+            et = int(et)
+            m = (ClientHello() if raw[0] == 1 else ServerHello()).parse(Parser(bytearray(raw[1:])))
+            new = []
+            for e in (m.extensions or []):
+                if e.extType == et:
+                    full = bytes(e.write())
+                    pl = full[4:]
+                    npl = {"empty": b"", "zeros": bytes(len(pl)), "zerotail": pl[:2] + bytes(max(0, len(pl) - 2)),
+                           "half": pl[:len(pl) // 2], "byte0": b"\x00", "ones": b"\x01" * len(pl)}[how]
+                    if npl == pl:
+                        return None
+                    e = TLSExtension(extType=et).create(bytearray(npl))
+                new.append(e)
+            m.extensions = new
+            return bytes(m.write())
         ch = ClientHello().parse(Parser(bytearray(raw[1:])))
         exts = list(ch.extensions or [])
+        if name == "ch-sni-empty-name":
+            body = bytes([0, 3, 0, 0, 0])        # one host_name entry of length zero
+            ch.extensions = [e for e in exts if e.extType != ExtensionType.server_name] + \
+                [TLSExtension(extType=ExtensionType.server_name).create(bytearray(body))]
+            return bytes(ch.write())
         if name == "ch-dup-extension" and exts:
             ch.extensions = exts + [exts[0]]
             return bytes(ch.write())
@@ -495,8 +533,13 @@ def leaf_job(name):
                     cases.append(("byte", i, v))
         cases += [("cut", c, 0) for c in range(len(raw))]
         cases += [("ext", n, 0) for n in (1, 2, 100)]
+        from .. import dermut
+        dm = list(dermut.mutants(raw))
+        cases += [("der-" + key[0], key[1], mi) for mi, (key, _b) in enumerate(dm)]
         for kind, i, v in cases:
-            if kind == "byte":
+            if kind.startswith("der-"):
+                b = bytearray(dm[v][1])
+            elif kind == "byte":
                 b = bytearray(raw)
                 b[i] = v
             elif kind == "cut":
@@ -567,7 +610,7 @@ def run(tier):
                 jobs.append({"id": jid, "f": f, "role": role, "k": k, "mut": mb,
                              "tag": {"flavour": FL.fname(f), "role": role, "msg": tok, "k": k, "class": name, "arg": 0}, "measure": True})
             if tok in ("CERT", "CCERT") and f["ver"] == 4:
-                for declared in (0xFFFFFF, 2000):
+                for declared in (0xFFFFFF, 2000, 1, 0):
                     jid += 1
                     jobs.append({"id": jid, "f": f, "role": role, "k": k, "mut": bomb(raw, declared),
                                  "tag": {"flavour": FL.fname(f), "role": role, "msg": tok, "k": k, "class": "compressed-cert-bomb",
@@ -683,7 +726,10 @@ def replay(path):
         fi = d["obs"]["first"]
         raw = bytes(cred(fi["cert"])[0].x509List[fi["index"]].bytes)
         b = bytearray(raw)
-        if fi["kind"] == "byte":
+        if fi["kind"].startswith("der-"):
+            from .. import dermut
+            b = bytearray(list(dermut.mutants(raw))[fi["value"]][1])
+        elif fi["kind"] == "byte":
             b[fi["pos"]] = fi["value"]
         elif fi["kind"] == "cut":
             b = b[:fi["pos"]]
